@@ -17,7 +17,26 @@ def cpu_ticks(pid):
         return None
 
 
-def gdb_stack(pid, timeout=40):
+def max_thread_ticks(pid):
+    """CPU time (ticks) of the thread of the process that has used most"""
+    best = 0
+    try:
+        for tid in os.listdir(f"/proc/{pid}/task"):
+            try:
+                with open(f"/proc/{pid}/task/{tid}/stat") as f:
+                    parts = f.read().rsplit(")", 1)[1].split()
+                best = max(best, int(parts[11]) + int(parts[12]))
+            except Exception:
+                pass
+    except Exception:
+        pass
+    return best
+
+
+SPIN_TICKS = 6000  # one thread having burnt 60 cpu-seconds: no case comes near that, however loaded the machine
+
+
+def gdb_stack(pid, timeout=120):
     try:
         p = subprocess.run(["gdb", "-p", str(pid), "-batch", "-ex", "set pagination off", "-ex", "thread apply all bt 14"],
                            stdout=subprocess.PIPE, stderr=subprocess.DEVNULL, text=True, timeout=timeout)
@@ -63,18 +82,27 @@ def confirm(binary, prop, case, key, budget=40, extra_sig=None):
             c1 = cpu_ticks(p.pid)
             time.sleep(3)
             c2 = cpu_ticks(p.pid)
-            stack = gdb_stack(p.pid)
+            spinning = c1 is not None and c2 is not None and (c2 - c1) >= 200  # >= 2 cpu-seconds in 3 s
+            if c1 is not None and c2 is not None and not spinning and (c2 - c1) > 5:
+                # the process is making CPU progress but slowly: the machine is loaded and the wall-clock budget says little.
+                # Decide on CPU time instead: wait (bounded) until one of its threads has burnt SPIN_TICKS, or it ends.
+                while p.poll() is None and time.time() - t0 < 6 * budget and max_thread_ticks(p.pid) < SPIN_TICKS:
+                    time.sleep(1)
+                spinning = p.poll() is None and max_thread_ticks(p.pid) >= SPIN_TICKS
+                c1 = cpu_ticks(p.pid)
+                time.sleep(3)
+                c2 = cpu_ticks(p.pid)
+            stack = gdb_stack(p.pid) if p.poll() is None else ""
             still = p.poll() is None
             if still and c1 is not None and c2 is not None:
                 frame, waiting = blocked_frame(stack)
-                spinning = (c2 - c1) >= 200  # >= 2 cpu-seconds in 3 s
                 idle = (c2 - c1) <= 5
                 if frame and (waiting or spinning or idle):
                     sig = {"kind": "hang", "frame": frame, "cpu": "spinning" if spinning else "idle", "profile": case.profile}
                     if extra_sig:
                         sig.update(extra_sig)
                     result = {"sig": sig,
-                              "what": f"{prop}: the case does not terminate: still running after {budget}s alone, cpu delta {c2-c1} ticks in 3 s, "
+                              "what": f"{prop}: the case does not terminate: still running after {int(time.time() - t0)}s alone, cpu delta {c2-c1} ticks in 3 s, "
                                       f"blocked in {frame}",
                               "detail": {"stack_excerpt": stack[-3000:]}}
     finally:
